@@ -154,6 +154,7 @@ pub fn features_name() -> &'static str {
 pub fn main_digest(args: &Args) -> i32 {
     util::install_crash_reporter();
     util::silence_panics();
+    util::CASE_ALARM_SECS.store(15, std::sync::atomic::Ordering::Relaxed); // digest cases are tiny; a stuck one shows up as a difference
     crate::bufeng::DIGEST_MODE.store(true, std::sync::atomic::Ordering::SeqCst);
     let seed = args.u64("seed", 1);
     let n = args.usize("cases", 3000);
